@@ -5,6 +5,7 @@ import (
 	"go/types"
 	"sort"
 	"strings"
+	"sync"
 	"time"
 
 	"golang.org/x/tools/go/ssa"
@@ -110,6 +111,7 @@ type Exec struct {
 	bech32Atoms      []*smt.Term
 	viewAtoms        []viewAtom
 	keyPairs         []*smt.Term
+	curLoc           string
 }
 
 // ResultSet accumulates the results of the paths of one harness.
@@ -175,6 +177,17 @@ type CheckStat struct {
 	Violated  int
 	Unknown   int
 }
+
+var (
+	forkStats map[string]int
+	forkMu    sync.Mutex
+)
+
+// EnableForkStats turns on fork-site counting (debug aid).
+func EnableForkStats() { forkStats = map[string]int{} }
+
+// ForkStats returns the counts.
+func ForkStats() map[string]int { return forkStats }
 
 type pathEnd struct {
 	reason string
@@ -309,6 +322,11 @@ func (e *Exec) choose(n int, feasible func(i int) smt.Result) int {
 		d := p.decisions[p.cursor]
 		p.cursor++
 		return d
+	}
+	if forkStats != nil {
+		forkMu.Lock()
+		forkStats[e.curLoc]++
+		forkMu.Unlock()
 	}
 	first := -1
 	for i := 0; i < n; i++ {
